@@ -653,6 +653,12 @@ class Driver(object):
             if k == "CrashInSweep" and err == ABSENT:
                 self.next_sweep = self.now_ticks() + self.to_ticks(self.period_secs)
         if crash_at is not None:
+            # what the full execution chose at random is part of the event
+            if self.tokens.gen > st["gen0"]:
+                e["gid"] = "g%d" % (st["gen0"] + 1)
+            for f in st["out"]:
+                if f["type"] == "allocated":
+                    e["pick"] = f["nameplate"]
             # the process died after the crash_at-th durable change of this step
             assert self.cfg.snapshots
             crash_at = min(crash_at, len(st["tr"]) - 1)
